@@ -403,6 +403,32 @@ func driveC12(o opts) error {
 		case 0, 1, 2:
 			op := wg.operation()
 			rtGo("operation:"+op.Op, op, func() interface{} { return &ovsdb.Operation{} })
+			// ... and against the model of the struct codec
+			if enc, err := toTree(op); err == nil {
+				b, _ := json.Marshal(op)
+				var back ovsdb.Operation
+				if json.Unmarshal(b, &back) == nil {
+					us := map[int]bool{}
+					collectOp := func(o ovsdb.Operation) {
+						collectUUIDs(syms, o.Row, us)
+						for _, r := range o.Rows {
+							collectUUIDs(syms, r, us)
+						}
+						for _, m := range o.Mutations {
+							collectUUIDs(syms, m.Value, us)
+						}
+						for _, c := range o.Where {
+							collectUUIDs(syms, c.Value, us)
+						}
+					}
+					collectOp(op)
+					w.Add(emit.Case{
+						Term: fmt.Sprintf("COp %s (%s) %s %s", wopTerm(syms, op), gvalTerm(syms, enc), wopTerm(syms, back), symSet(us)),
+						JSON: map[string]interface{}{"target": "operation", "value": string(b)},
+						Key:  "op" + string(b), Nontrivial: true, Class: "operation:" + op.Op,
+					})
+				}
+			}
 			if op.Op == "select" {
 				b, _ := json.Marshal(op)
 				if !strings.Contains(string(b), `"where"`) {
